@@ -200,3 +200,11 @@ package values
 //@   ensures shown: !implements(v, "DefaultValued") ==> result == valueString(v, len(old(trace))) && trace == old(trace) ++ seq(evMeth(v, "String"))
 //@   ensures shown2: implements(v, "DefaultValued") && !valueIsDefault(v, len(old(trace))) ==> result == valueString(v, len(old(trace)) + 1) &&
 //@       trace == (old(trace) ++ seq(evMeth(v, "IsDefault"))) ++ seq(evMeth(v, "String"))
+
+// capabilities of the built-in types (C06, C13, C19): which of them are multi-valued (cleared, comma-split environment),
+// which are flags, which can say they hold their default. A method added to or dropped from one of them changes this table.
+//@ lemma builtinCapabilities(v any)
+//@   requires builtinValue(v)
+//@   ensures implements(v, "MultiValued") == (isType(v, "*StringsValue") || isType(v, "*IntsValue") || isType(v, "*Floats64Value"))
+//@   ensures implements(v, "BoolValued") == isType(v, "*BoolValue")
+//@   ensures implements(v, "DefaultValued") == (isType(v, "*BoolValue") || isType(v, "*StringValue") || isType(v, "*StringsValue") || isType(v, "*IntsValue") || isType(v, "*Floats64Value"))
